@@ -699,7 +699,11 @@ class PandasModelBase(
             res = self.add_data_frame_columns_to_data_frame_(res, new_frame)
         else:
             data_algebra_temp_cols = {}
-            standin_name = "_data_algebra_temp_g"  # name of an arbitrary input variable
+            used_names = list(res.columns) + list(op.ops.keys())
+            standin_name = self._scratch_name(
+                "_data_algebra_temp_g", used_names
+            )  # name of an arbitrary input variable
+            orig_index_name = self._scratch_name("_data_algebra_orig_index", used_names)
             # build up a sub-frame to work on
             col_list = [c for c in set(op.partition_by)]
             col_set = set(col_list)
@@ -719,8 +723,10 @@ class PandasModelBase(
                     elif isinstance(opk.args[0], data_algebra.expr_rep.Value):
                         key = str(opk.args[0].value)
                         if key not in data_algebra_temp_cols.keys():
-                            value_name = "data_algebra_extend_temp_col_" + str(
-                                len(data_algebra_temp_cols)
+                            value_name = self._scratch_name(
+                                "data_algebra_extend_temp_col_"
+                                + str(len(data_algebra_temp_cols)),
+                                used_names,
                             )
                             data_algebra_temp_cols[key] = value_name
                             col_list.append(value_name)
@@ -729,7 +735,7 @@ class PandasModelBase(
                         raise ValueError("opk must be a ColumnReference or Value")
             ascending = [c not in set(op.reverse) for c in col_list]
             subframe = self.clean_copy(res[col_list])
-            subframe["_data_algebra_orig_index"] = subframe.index
+            subframe[orig_index_name] = subframe.index
             if len(order_cols) > 0:
                 subframe = self.clean_copy(
                     subframe.sort_values(by=col_list, ascending=ascending)
@@ -811,7 +817,7 @@ class PandasModelBase(
             for value_name in data_algebra_temp_cols.values():
                 del res[value_name]
             # copy out results
-            subframe = subframe.sort_values(by=["_data_algebra_orig_index"])
+            subframe = subframe.sort_values(by=[orig_index_name])
             subframe = subframe.loc[:, list(op.ops.keys())]
             subframe = self.clean_copy(subframe)
             res = self.add_data_frame_columns_to_data_frame_(res, subframe)
@@ -830,6 +836,8 @@ class PandasModelBase(
         # https://www.shanelynn.ie/summarising-aggregation-and-grouping-data-in-python-pandas/
         data_algebra_temp_cols = {}
         res = self._eval_value_source(op.sources[0], data_map=data_map)
+        used_names = list(res.columns) + list(op.ops.keys())
+        count_col = self._scratch_name("_data_table_temp_col", used_names)
         for k, opk in op.ops.items():
             if len(opk.args) > 1:
                 raise ValueError(
@@ -841,8 +849,10 @@ class PandasModelBase(
                 elif isinstance(opk.args[0], data_algebra.expr_rep.Value):
                     key = str(opk.args[0].value)
                     if key not in data_algebra_temp_cols.keys():
-                        value_name = "data_algebra_project_temp_col_" + str(
-                            len(data_algebra_temp_cols)
+                        value_name = self._scratch_name(
+                            "data_algebra_project_temp_col_"
+                            + str(len(data_algebra_temp_cols)),
+                            used_names,
                         )
                         data_algebra_temp_cols[key] = value_name
                         res[value_name] = opk.args[0].value
@@ -853,7 +863,7 @@ class PandasModelBase(
                         + ": "
                         + str(opk)
                     )
-        res["_data_table_temp_col"] = 1
+        res[count_col] = 1
         if len(op.group_by) > 0:
             res = res.groupby(op.group_by, observed=True, dropna=False)
         if len(op.ops) > 0:
@@ -882,10 +892,10 @@ class PandasModelBase(
                         transform_op = self.transform_op_map[transform_op]
                     except KeyError:
                         pass
-                    vk = res["_data_table_temp_col"].agg(transform_op)
+                    vk = res[count_col].agg(transform_op)
                 cols[k] = vk
         else:
-            cols = {"_data_table_temp_col": res["_data_table_temp_col"].agg("sum")}
+            cols = {count_col: res[count_col].agg("sum")}
         # agg can return scalars, which then can't be made into a self.pd.DataFrame
         res = self.columns_to_frame_(cols)
         res = res.reset_index(
@@ -899,8 +909,8 @@ class PandasModelBase(
         else:
             for g in missing_group_cols:
                 res[g] = []
-        if "_data_table_temp_col" in res.columns:
-            res = res.drop("_data_table_temp_col", axis=1, inplace=False)
+        if count_col in res.columns:
+            res = res.drop(count_col, axis=1, inplace=False)
         # double check shape is what we expect
         if not self.table_is_keyed_by_columns(res, column_names=op.group_by):
             raise ValueError("result wasn't keyed by group_by columns")
@@ -1012,6 +1022,17 @@ class PandasModelBase(
         return jointype
 
     # noinspection PyMethodMayBeStatic
+    def _scratch_name(self, base: str, taken) -> str:
+        """
+        Name for a temporary column or suffix: base, extended until it collides with none of the taken names.
+        """
+        taken = [str(c) for c in taken]
+        name = base
+        while any((name == c) or c.endswith(name) for c in taken):
+            name = name + "_"
+        return name
+
+    # noinspection PyMethodMayBeStatic
     def _any_key_missing(self, d, keys):
         """
         Vector marking the rows of d that have a missing value in at least one of the key columns.
@@ -1046,12 +1067,17 @@ class PandasModelBase(
         on_b = op.on_b
         scratch_col = None  # extra column to prevent empty-on issues
         if len(on_a) <= 0:
-            scratch_col = "data_algebra_temp_merge_col"
+            scratch_col = self._scratch_name(
+                "data_algebra_temp_merge_col", list(left.columns) + list(right.columns)
+            )
             on_a = [scratch_col]
             on_b = [scratch_col]
             left[scratch_col] = 1
             right[scratch_col] = 1
         how = self.standardize_join_code_(op.jointype)
+        right_suffix = self._scratch_name(
+            "_tmp_right_col", list(left.columns) + list(right.columns)
+        )
         unmatched_rows = []  # rows with a missing key: SQL never matches them (Pandas merge matches NaN to NaN)
         if scratch_col is None:
             left_key_missing = self._any_key_missing(left, on_a)
@@ -1064,7 +1090,7 @@ class PandasModelBase(
                     unmatched_rows.append(
                         right.loc[right_key_missing, :].rename(
                             columns={
-                                c: c + "_tmp_right_col"
+                                c: c + right_suffix
                                 for c in common_cols
                                 if c not in merged_keys
                             }
@@ -1080,7 +1106,7 @@ class PandasModelBase(
             left_on=on_a,
             right_on=on_b,
             sort=False,
-            suffixes=("", "_tmp_right_col"),
+            suffixes=("", right_suffix),
         )
         unmatched_rows = [r for r in unmatched_rows if r.shape[0] > 0]
         if len(unmatched_rows) > 0:
@@ -1094,8 +1120,8 @@ class PandasModelBase(
         for c in common_cols:
             if c not in on_a_set:
                 is_null = res[c].isnull()
-                res.loc[is_null, c] = res.loc[is_null, c + "_tmp_right_col"]
-                res = res.drop(c + "_tmp_right_col", axis=1, inplace=False)
+                res.loc[is_null, c] = res.loc[is_null, c + right_suffix]
+                res = res.drop(c + right_suffix, axis=1, inplace=False)
         self.drop_indices(res)
         return res
 
